@@ -185,16 +185,19 @@ PROPS["C05"] = dict(
 )
 PROPS["C10"] = dict(
     level="exploration",
-    runs=dict(quick=6000, thorough=150000), budget_s=dict(quick=170, thorough=1700), gomaxprocs=4,
+    runs=dict(quick=6000, thorough=150000), budget_s=dict(quick=100, thorough=1200), gomaxprocs=4,
+    real_engine=True, real_runs=dict(quick=1600, thorough=40000), real_budget_s=dict(quick=70, thorough=900), mem_gb=None,
     rule="one evaluation = one seeded concurrent run of 3-6 tasks calling every public method (Put, Delete, Get, GetAppend, Has, Count, Items/Next, Sync, Compact, Backup, FileSize, Metrics, Close - Close by a random task at a random position, sometimes twice), background worker on in half the runs; "
          "oracles: no panic, scheduler deadlock detector, step limit (livelock), no goroutine left when the bubble ends, no database-spawned goroutine granted a step after the first successful Close returned, "
          "an operation may return an error only if a Close had been invoked by the time it returned, and the directory reopened cleanly and with forced recovery holds per key the last acknowledged write or a write that failed in the Close race "
          "(a write invoked after Close returned that returns nil must have no effect; the log replayed by the independent decoder must yield an allowed value per key); "
-         "distinct_nontrivial = distinct schedule digests",
-    real=REAL_SCHED, stub=STUB_SCHED,
-    assumptions=SCHED_ASSUME + ["NOT decided here: the data-race clause (the race detector sees nothing under a scheduler that hands one baton around; the planned real-goroutine -race mode is not built) and the memory-fault clause of fs.OSMMap (the simulated disk replaces the FileSystem)",
+         "distinct_nontrivial = distinct schedule digests. "
+         "SECOND MODE (data-race and memory-fault clauses, REAL): the same kind of seeded plans (tasks lengthened to >= 40 calls) run by real goroutines on the UNINSTRUMENTED code built with -race on fs.Mem, fs.OS and fs.OSMMap with the real background worker (1-11 ms tickers); "
+         "judged: any race detector report (attributed to the run by the growth of the detector's log file), a panic or memory fault (SetPanicOnFault) in any task, no progress within 60 s, a database goroutine still present after Close returned; API errors are counted, not judged",
+    real=REAL_SCHED + ["REAL mode: the unmodified repository code, real sync, real goroutines and tickers, fs.Mem / fs.OS / fs.OSMMap, Go race detector"], stub=STUB_SCHED + ["REAL mode: nothing is stubbed"],
+    assumptions=SCHED_ASSUME + ["the REAL mode observes executions whose interleaving it does not control (DESIGN.md 2.8): the race detector is happens-before based and blind under a scheduler that hands one baton around; a race report is its own witness, its replay re-runs the seeded workload up to 20 times",
                                 "open handles / a held lock after Close are counted as probes, not judged (C15 / C13 matters)"],
-    must_reach=dict(quick=["close_raced", "write_failed_in_close_race", "write_started_after_close", "tick", "context_switches"], thorough=["close_raced"]),
+    must_reach=dict(quick=["close_raced", "write_failed_in_close_race", "write_started_after_close", "tick", "context_switches", "real_run_on_mem", "real_run_on_os", "real_run_on_osmmap"], thorough=["close_raced", "real_run_on_osmmap"]),
 )
 PROPS["C11"] = dict(
     level="exploration",
@@ -216,9 +219,9 @@ PROPS["C12"] = dict(
 TEXT["C05"] = _t("sim+harness", "deterministic simulation with fault injection: seeded scheduler places writers in every lock-release window of compaction; crash images from the journal inside Compact; porcupine + exact per-key crash oracle",
                  "Seeded search over interleavings of writers with compaction's per-record critical sections, plus process-crash images inside and after Compact (concurrent and sequential), recovered by the real code.",
                  "Schedules and crash points sampled. Single writer per key makes the crash oracle exact.", "DESIGN.md 4/C05")
-TEXT["C10"] = _t("sim+harness", "deterministic simulation: all public methods incl. Close from several tasks under the seeded scheduler; deadlock detector, panic capture, end-of-bubble leak check, post-Close directory oracle",
-                 "Seeded search over interleavings of every public method with Close and the background worker; decides the panic / deadlock / goroutine-left-after-Close / Close-race clauses of C10. The data-race clause and the mmap memory-fault clause are NOT decided by this check.",
-                 "Partial: schedules sampled at lock/FS-call granularity on the simulated disk only. The race detector is blind under the baton scheduler and the planned real-goroutine -race mode (DESIGN.md 2.8) is not built, so the data-race clause - including the fs.Mem races seen by a design-phase probe (DESIGN.md 6 #10, 11) - is outside this check.", "DESIGN.md 4/C10, 11")
+TEXT["C10"] = _t("sim+harness", "deterministic simulation: all public methods incl. Close from several tasks under the seeded scheduler; deadlock detector, panic capture, end-of-bubble leak check, post-Close directory oracle; plus a real-goroutine -race mode on the three shipped file systems for the data-race and memory-fault clauses",
+                 "Seeded search over interleavings of every public method with Close and the background worker decides the panic / deadlock / goroutine-left-after-Close / Close-race clauses; the data-race and mmap memory-fault clauses are decided by running the same seeded plans with real goroutines on the uninstrumented code under the Go race detector on fs.Mem, fs.OS and fs.OSMMap.",
+                 "SIM: schedules sampled at lock/FS-call granularity on the simulated disk. REAL: interleavings are the Go runtime's, not controlled and not replayable schedule-exactly (stated in DESIGN.md 2.8); detection of a race is happens-before based, so it does not need the bad interleaving to occur.", "DESIGN.md 2.8, 4/C10, 11")
 TEXT["C11"] = _t("sim+harness", "deterministic simulation: scans interleaved item by item with writers, splits and compaction by the seeded scheduler; write-log oracle for truthfulness and completeness",
                  "Seeded search over interleavings of Items scans with Put/Delete aimed at the split bucket and at overflow chains, and Compact; plus exact sequential scans.",
                  "Schedules sampled.", "DESIGN.md 4/C11")
